@@ -37,13 +37,13 @@ type wireCase struct {
 }
 
 type c10env struct {
-	scheme string
-	cache  bool
+	scheme    string
+	cache     bool
 	fetchable *hotstuff.Block
-	n, q   int
-	nodes  []*hx.Node
-	r      *hx.Node // replica under test (id 2)
-	svc    interface {
+	n, q      int
+	nodes     []*hx.Node
+	r         *hx.Node // replica under test (id 2)
+	svc       interface {
 		Propose(gorums.ServerCtx, *hotstuffpb.Proposal)
 		Vote(gorums.ServerCtx, *hotstuffpb.PartialCert)
 		NewView(gorums.ServerCtx, *hotstuffpb.SyncInfo)
